@@ -446,6 +446,15 @@ class Check:
             self.discharged = sum(1 for n in names if n in self.axioms
                                   and all(a in ALLOWED_AXIOMS for a in self.axioms[n]))
             self.proof_problems += bad
+        if ok and self.tier == 'thorough':
+            # independent re-check of the compiled theorem modules and of every project module they import
+            mods = sorted({str(f.relative_to(LEAN).with_suffix('')).replace('/', '.')
+                           for f in import_closure(theorem_modules(self.prop))})
+            r = _run(['lake', 'env', 'leanchecker', *mods], cwd=LEAN, timeout=3600)
+            if r.returncode != 0:
+                self.proof_problems.append('leanchecker rejected the compiled modules: ' + (r.stdout + r.stderr)[-600:])
+                self.discharged = 0
+            self.extra['leanchecker'] = f"{'ok' if r.returncode == 0 else 'FAILED'} ({len(mods)} modules re-checked)"
         forb = grep_forbidden(self.prop)
         if forb:
             self.proof_problems.append('forbidden constructs: ' + '; '.join(forb[:5]))
